@@ -6,7 +6,7 @@
 (* model's step function (Steps.tla - the same operators the models' actions use).  *)
 (* A mismatch means model and code have drifted apart: reported as a binding_       *)
 (* clause (counted, shown, never a property violation by itself).                   *)
-EXTENDS Util, FA, CFG, Steps, RegexCode
+EXTENDS Util, FA, CFG, PDA, Steps, RegexCode
 
 BadB(name, cond) == IF cond THEN {name} ELSE {}
 SetOfSets(x) == {ToSet(b) : b \in ToSet(x)}
@@ -55,6 +55,23 @@ JRipTrace(e) ==
            THEN BadB("binding_rip_step_is_model_step", fin[2][<<qs, qa>>] # e.res)
            ELSE {})
      \cup BadB("equivalent_exact", ~ReEquivFa(e.res, D))
+
+(* pda_epsilon_closure: start configurations, the limit, then pops <<src, |result|, todo>>, the returned set *)
+JPcTrace(e) ==
+  LET P == PdaOf(e.pda)
+      n == Len(e.pops)
+      Conf(c) == <<c[1], c[2]>>
+      Confs(x) == {Conf(x[i]) : i \in DOMAIN x}
+      Src(k) == Conf(e.pops[k].src)
+      Todo(k) == IF k = 0 THEN Confs(e.start) ELSE Confs(e.pops[k].todo)
+      RECURSIVE Res(_)
+      Res(k) == IF k = 0 THEN Confs(e.start) ELSE PcResult(P, Res(k - 1), Src(k))
+  IN BadB("binding_pc_choice_enabled", \E k \in 1..n : Src(k) \notin Todo(k - 1))
+     \cup BadB("binding_pc_step_is_model_step",
+               \E k \in 1..n : \/ Todo(k) # PcTodo(P, Res(k - 1), Todo(k - 1), Src(k))
+                               \/ e.pops[k].nresult # Cardinality(Res(k)))
+     \cup BadB("binding_pc_stops_at_limit_or_exhaustion", n > e.limit \/ ~(Todo(n) = {} \/ n = e.limit))
+     \cup BadB("binding_pc_returns_final_state", Confs(e.res) # Res(n))
 
 (* dfa_hopfcroft: states[k] = (P, W) before the k-th pop, pops[k] = <<W, a>>, final P *)
 JHopTrace(e) ==
